@@ -56,6 +56,7 @@ def main():
     ctx = Ctx()
     ctx.rep, ctx.tier, ctx.seed, ctx.rng = rep, tier, seed, random.Random(seed * 7919 + 17)
     ctx.thorough = tier == "thorough"
+    ctx.escalated = False
     ctx.replay = replay
     ctx.props = props        # checks with source-derived theorems append them to props['theorems']
     try:
@@ -69,6 +70,7 @@ def main():
             if relevant and not ctx.thorough and getattr(mod, "ESCALATE", True) and not os.environ.get("PV_NO_ESCALATE"):
                 # the tree is not the one the quick tier was calibrated on: explore it with the thorough generators
                 ctx.thorough = True
+                ctx.escalated = True
                 rep.note("escalated_to_thorough_generators", True)
                 core.log("source differs from the baseline in %s: quick tier runs the thorough generators" % changed)
             mod.run(ctx)
